@@ -67,7 +67,7 @@ impl<D: Dataset> Dataset for ProbeDs<D> {
 // ---------------------------------------------------------------------------------------------
 // the operations, each parameterised by the number of elements along its size dimension
 // ---------------------------------------------------------------------------------------------
-const OPS: &[(&str, &str)] = &[
+const STATIC_OPS: &[(&str, &str)] = &[
     // (a) the five matching iterators, light and fast stores: n rows, all skipped but the last
     ("spo-light", "LightGraph::triples_matching(closure, Any, Any): SpoMatchingIterator skipping n-1 rows"),
     ("spo-fast", "FastGraph::triples_matching(closure, Any, Any): SpoMatchingIterator skipping n-1 rows"),
@@ -101,6 +101,64 @@ const OPS: &[(&str, &str)] = &[
     // a chain of n statements _:b(i) <x:p> _:b(i+1): no nesting in the data, the pretty serializer nests [ ... ]
     ("ttl-chain", "pretty TurtleSerializer on a chain of n blank nodes (the serializer chooses to nest them in [ ])"),
 ];
+/// every skip position of every matching iterator: "it-<store>-<constant positions or _>-<varying position>":
+/// n rows that differ only in the varying position, queried with constants at the constant
+/// positions, a caller-supplied matcher accepting only the last row at the varying position and
+/// `Any`-like matchers elsewhere (so that n-1 rows are skipped at that position of whichever
+/// iterator / index the store picks for this combination of constants)
+fn generated_ops() -> Vec<(String, String)> {
+    let mut v = vec![];
+    for (store, name, npos) in [("lg", "LightGraph", 3usize), ("fg", "FastGraph", 3), ("ld", "LightDataset", 4), ("fd", "FastDataset", 4)] {
+        for var in 0..npos { for mask in 0..(1u8 << npos) {
+            if mask & (1 << var) != 0 { continue; }
+            let consts: String = (0..npos).filter(|i| mask & (1 << i) != 0).map(|i| ['s', 'p', 'o', 'g'][i]).collect();
+            let pat: Vec<String> = (0..npos).map(|i| if i == var { "closure".to_string() } else if mask & (1 << i) != 0 { format!("[{}]", ['s', 'p', 'o', 'g'][i]) } else { "any".to_string() }).collect();
+            v.push((format!("it-{store}-{}-{}", if consts.is_empty() { "_" } else { &consts }, ['s', 'p', 'o', 'g'][var]),
+                    format!("{name}::{}({}) over n rows differing in position {}: n-1 rows skipped at that position", if npos == 3 { "triples_matching" } else { "quads_matching" }, pat.join(", "), ['s', 'p', 'o', 'g'][var])));
+        } }
+    }
+    v
+}
+fn ops() -> &'static [(&'static str, &'static str)] {
+    static ALL: std::sync::OnceLock<Vec<(&'static str, &'static str)>> = std::sync::OnceLock::new();
+    ALL.get_or_init(|| { let mut v: Vec<(&'static str, &'static str)> = STATIC_OPS.to_vec(); for (a, b) in generated_ops() { v.push((Box::leak(a.into_boxed_str()), Box::leak(b.into_boxed_str()))); } v })
+}
+/// matchers of the generated iterator operations
+enum SM { K(ST), AnyM, Last }
+impl sophia_api::term::matcher::TermMatcher for SM {
+    type Term = ST;
+    fn matches<T2: Term + ?Sized>(&self, t: &T2) -> bool { match self { SM::K(k) => Term::eq(k, t.borrow_term()), SM::AnyM => true, SM::Last => { probe(); t.iri().map_or(false, |i| i.as_str() == "x:last") } } }
+    fn constant(&self) -> Option<&ST> { if let SM::K(k) = self { Some(k) } else { None } }
+}
+enum SG { K(GraphName<ST>), AnyM, Last }
+impl sophia_api::term::matcher::GraphNameMatcher for SG {
+    type Term = ST;
+    fn matches<T2: Term + ?Sized>(&self, g: GraphName<&T2>) -> bool { match self { SG::K(k) => sophia_api::term::graph_name_eq(k.as_ref().map(|t| t.borrow_term()), g.map(|t| t.borrow_term())), SG::AnyM => true, SG::Last => { probe(); g.and_then(|t| t.iri()).map_or(false, |i| i.as_str() == "x:last") } } }
+    fn constant(&self) -> Option<GraphName<&ST>> { if let SG::K(k) = self { Some(k.as_ref()) } else { None } }
+}
+fn run_generated(op: &str, n: usize) -> u64 {
+    let parts: Vec<&str> = op.split('-').collect();
+    let (store, consts, var) = (parts[1], parts[2], parts[3]);
+    let var = "spog".find(var).unwrap();
+    let fixed = [iri("x:s"), iri("x:p"), iri("x:o"), iri("x:g")];
+    let row = |i: usize| -> [ST; 4] { let mut r = fixed.clone(); r[var] = if i + 1 == n { iri("x:last") } else { s_i(i) }; r };
+    let sm = |pos: usize| if pos == var { SM::Last } else if consts.contains(['s', 'p', 'o', 'g'][pos]) { SM::K(fixed[pos].clone()) } else { SM::AnyM };
+    let gm = || if var == 3 { SG::Last } else if consts.contains('g') { SG::K(Some(fixed[3].clone())) } else { SG::AnyM };
+    fn g_go<G: MutableGraph + Graph>(mut g: G, n: usize, row: impl Fn(usize) -> [ST; 4], s: SM, p: SM, o: SM) -> u64 {
+        for i in 0..n { let [a, b, c, _] = row(i); g.insert(a, b, c).ok().unwrap(); }
+        g.triples_matching(s, p, o).count() as u64
+    }
+    fn d_go<D: MutableDataset + Dataset>(mut d: D, n: usize, row: impl Fn(usize) -> [ST; 4], s: SM, p: SM, o: SM, g: SG) -> u64 {
+        for i in 0..n { let [a, b, c, gn] = row(i); d.insert(a, b, c, Some(gn)).ok().unwrap(); }
+        d.quads_matching(s, p, o, g).count() as u64
+    }
+    match store {
+        "lg" => g_go(LightGraph::new(), n, row, sm(0), sm(1), sm(2)),
+        "fg" => g_go(FastGraph::new(), n, row, sm(0), sm(1), sm(2)),
+        "ld" => d_go(LightDataset::new(), n, row, sm(0), sm(1), sm(2), gm()),
+        _ => d_go(FastDataset::new(), n, row, sm(0), sm(1), sm(2), gm()),
+    }
+}
 /// operations whose size dimension is one the property quantifies over (ORACLE); the rest would be exploration
 fn in_oracle(_op: &str) -> bool { true }
 
@@ -121,6 +179,7 @@ fn escapes(n: usize) -> String { (0..n).map(|i| ['"', '\\', '\n', '\r'][i % 4]).
 fn run_op(op: &str, n: usize) -> u64 {
     let last = |t: SimpleTerm| -> bool { probe(); t.iri().map_or(false, |i| i.as_str() == "x:last") };
     match op {
+        o if o.starts_with("it-") => run_generated(o, n),
         "spo-light" | "spo-fast" => {
             fn go<G: MutableGraph + Graph>(mut g: G, n: usize, last: impl Fn(SimpleTerm) -> bool) -> u64 {
                 for i in 0..n { g.insert(if i + 1 == n { iri("x:last") } else { s_i(i) }, iri("x:p"), iri("x:o")).ok().unwrap(); }
@@ -263,7 +322,7 @@ fn run_op(op: &str, n: usize) -> u64 {
 /// the functional summary expected from run_op
 fn expected(op: &str, n: usize) -> Option<u64> {
     match op {
-        o if o.starts_with("spo-") || o.starts_with("bc-") || o.starts_with("gspo-") || o.starts_with("bcd-") || o.starts_with("cd-") => Some(1),
+        o if o.starts_with("it-") || o.starts_with("spo-") || o.starts_with("bc-") || o.starts_with("gspo-") || o.starts_with("bcd-") || o.starts_with("cd-") => Some(1),
         "nt-escape" | "nq-escape" | "ttl-escape" => None, // byte count, checked > 2n below
         "insert-remove" => Some((n + (n + 3) / 7) as u64),
         _ => Some(n as u64),
@@ -630,6 +689,7 @@ fn is_pretty(op: &str) -> bool { matches!(op, "ttl-list" | "ttl-pretty-stmts" | 
 /// quadratic time, so it gets what can be run at all
 fn sizes_for(op: &str, big: usize) -> Vec<usize> {
     if is_pretty(op) { return if big >= 1_000_000 { vec![300, 1000, if cfg!(debug_assertions) { 3000 } else { 10_000 }] } else { vec![300, 1000] }; }
+    if op.starts_with("it-") { return vec![big]; }
     let mut v = vec![]; let mut n = 10_000; while n <= big { v.push(n); n *= 10; } if v.is_empty() { v.push(big); } v
 }
 fn check_value(op: &str, n: usize, v: u64) -> bool { match expected(op, n) { Some(e) => v == e, None => v > 2 * n as u64 } }
@@ -660,7 +720,7 @@ fn main() {
         // exploration: every operation x sizes on a 2 MiB thread in a subprocess
         let sizes: Vec<usize> = a.rest[i + 1..].iter().filter_map(|s| s.parse().ok()).collect();
         let only: Vec<&str> = a.rest[i + 1..].iter().filter(|s| s.parse::<usize>().is_err()).map(|s| s.as_str()).collect();
-        for (op, _) in OPS { if !only.is_empty() && !only.iter().any(|o| op.starts_with(o)) { continue; } for &n in &sizes {
+        for (op, _) in ops() { if !only.is_empty() && !only.iter().any(|o| op.starts_with(o)) { continue; } for &n in &sizes {
             let (o, dt) = run_child(op, n, STACK, 1200);
             println!("{op:18} n={n:<8} [{PROFILE}] {o:?} ({dt:.1}s)");
         } }
@@ -677,7 +737,7 @@ non-trivial = at least two rows of which one is skipped / two escaped bytes / tw
 
     // one stack case, verbosely
     if let Some(id) = a.only.filter(|i| *i >= STACK_CASE_BASE) {
-        let k = id - STACK_CASE_BASE; let (op, desc) = OPS[k / 10]; let sizes = sizes_for(op, big);
+        let k = id - STACK_CASE_BASE; let (op, desc) = ops()[k / 10]; let sizes = sizes_for(op, big);
         let n = *sizes.get(k % 10).unwrap_or(&sizes[sizes.len() - 1]);
         let (o, dt) = run_child(op, n, STACK, 3600);
         println!("STACK CASE {id}: {op} ({desc}) n={n} on a {STACK}-byte stack [{PROFILE}] => {o:?} in {dt:.1}s");
@@ -702,7 +762,7 @@ non-trivial = at least two rows of which one is skipped / two escaped bytes / tw
 
     // ---- (2) the stack oracle: all (operation, size) pairs, `jobs` children at a time
     let mut work: Vec<(usize, usize, &'static str, usize)> = vec![]; // (case id, op index, op, n)
-    for (oi, (op, _)) in OPS.iter().enumerate() { for (si, n) in sizes_for(op, big).into_iter().enumerate() { work.push((STACK_CASE_BASE + oi * 10 + si, oi, op, n)); } }
+    for (oi, (op, _)) in ops().iter().enumerate() { for (si, n) in sizes_for(op, big).into_iter().enumerate() { work.push((STACK_CASE_BASE + oi * 10 + si, oi, op, n)); } }
     let queue = std::sync::Arc::new(std::sync::Mutex::new(work.clone().into_iter().rev().collect::<Vec<_>>()));
     let results = std::sync::Arc::new(std::sync::Mutex::new(Vec::<(usize, usize, usize, ChildOutcome, f64)>::new()));
     let t_stack = std::time::Instant::now();
@@ -714,7 +774,7 @@ non-trivial = at least two rows of which one is skipped / two escaped bytes / tw
     for h in handles { h.join().unwrap(); }
     let mut results = results.lock().unwrap().clone(); results.sort_by_key(|r| r.0);
     let mut table = vec![];
-    for (oi, (op, desc)) in OPS.iter().enumerate() {
+    for (oi, (op, desc)) in ops().iter().enumerate() {
         let mine: Vec<_> = results.iter().filter(|r| r.1 == oi).collect();
         let mut oks: Vec<(usize, usize, u64, usize)> = vec![]; // n, spread, calls, used
         let mut crashed = false;
